@@ -216,3 +216,13 @@ Proof.
     pose proof (fv_c0 _ _ _ _ V) as C. destruct (f_c0 f) as [n|]; [|exact I].
     destruct C as (r & t & -> & Hn). destruct lo; [lia|]. cbn [firstn]. eauto.
 Qed.
+
+(* a file whose written slots are all live has no dead rows in any view *)
+Lemma all_live_no_dead : forall P f A D, fview P f A D -> all_live f -> D = [].
+Proof.
+  intros P f A D V H. unfold all_live in H. rewrite (fv_rows _ _ _ _ V), forallb_rev, forallb_app in H.
+  apply andb_true_iff in H as [_ H]. destruct D as [|g t]; [reflexivity|].
+  cbn [forallb] in H. apply andb_true_iff in H as [H _].
+  pose proof (fv_dead _ _ _ _ V) as HD. inversion HD as [|? ? [Hg _] _]; subst.
+  unfold live_row in H. rewrite Hg in H. discriminate.
+Qed.
